@@ -14,7 +14,7 @@ for p in sorted(glob.glob("checks/C*.py")):
     if ready is not None and os.path.basename(p)[:-3] not in ready:
         continue
     spec = importlib.util.spec_from_file_location("m", p); m = importlib.util.module_from_spec(spec); spec.loader.exec_module(m)
-    for t in [getattr(m, "PROPS", None), getattr(m, "DRIVER", None)] + list(getattr(m, "EXTRA_LAKE_TARGETS", [])):
+    for t in [getattr(m, "PROPS", None), getattr(m, "PROPS_SRC", None), getattr(m, "DRIVER", None)] + list(getattr(m, "EXTRA_LAKE_TARGETS", [])):
         if t and t not in seen:
             seen.append(t)
 print(" ".join(seen))
